@@ -27,7 +27,10 @@ def SL(name, builder, K, timeout_s=1500, params=None):
 
 def units(tier):
     t = 900 if tier == "thorough" else 300
-    return [
+    extra = []
+    if tier == "thorough":
+        extra = [H("C05", M, "check_run_loop_4", 3000, [PE + "run"], "exactly 4 turns of the manager loop, shutdown flag raised at turn 0..4")]
+    return extra + [
         SL("slice.shutdown_nowait_vs_wait", "x5_shutdown_nowait_vs_wait", 30),
         SL("slice.worker_exit_vs_shutdown_nowait", "x3_worker_exit_vs_submit", 44, params={"with_user": False, "shutdown_thread": True}),
         H("C05", M, "check_shutdown_workers", t, [PE + "shutdown_workers", PE + "get_n_children_alive"], "0..3 workers each alive or not, Full raised 0..3 times"),
@@ -39,7 +42,7 @@ def units(tier):
         H("C05", M, "check_exit_registry", t, ["loky.process_executor:ProcessPoolExecutor._start_executor_manager_thread", "loky.process_executor:_python_exit", "loky.process_executor:ProcessPoolExecutor.shutdown"],
           "1..3 executors released by shutdown(wait=False) / plain drop / shutdown(wait=True), with or without the interpreter-exit hook running first"),
         H("C05", "lokyverif.harness.c02_broken", "check_run_loop", t, ["loky.process_executor:_ExecutorManagerThread.run"],
-          "1..4 turns of the manager loop, each a wake-up / a result / a broken pool; shutdown flag raised at turn 0..4; work left or not after each turn"),
+          "1..3 turns of the manager loop, each a wake-up / a result / a broken pool; shutdown flag raised at turn 0..3; work left or not after each turn"),
         H("C05", M, "check_gc_wakeup", t, [PE + "__init__"], "weakref callback of the real manager-thread constructor; shutdown lock free or held by another thread; multiprocessing module already torn down or not"),
         H("C05", M, "check_flags_step", t, ["loky.process_executor:_ExecutorFlags.flag_as_shutting_down"], "all 24 combinations of previous flags and request"),
         H("C05", "lokyverif.harness.c03_steps", "check_submit_step", t, ["loky.process_executor:ProcessPoolExecutor.submit"], "submit after shutdown raises ShutdownExecutorError"),
